@@ -167,7 +167,7 @@ validations:
 
 func C14(e *core.Env) {
 	res := e.Res
-	res.Rule = "cases = (document with generated lexical source maps, node): ranges with magnitudes 0, 1, 9/10, 2^31, 2^53+1, 2^64 and random; 0..3 additional files with 1..3 elements each (a single-element file, a node listed by two files), nodes without any entry, nodes with a property-level entry only, entries whose element is not a node, two source maps for one node, several entries in one source map, no source information at all, two source information nodes; " +
+	res.Rule = "cases = (document with generated lexical source maps, node): ranges with magnitudes 0, 1, 9/10, 2^31, 2^53+1, 2^64 and random; 0..3 additional files with 1..3 elements each (a single-element file, a node listed by two files), nodes without any entry, nodes with a property-level entry only, entries whose element is not a node, two source maps for one node, several entries in one source map, no source information at all, two source information nodes, file names with spaces / non-ASCII letters / dot segments / a relative reference / a query, three consecutive units with one root location whose nodes move between the included files; " +
 		"the location of every result, sub-result and trace about a node is compared with Lexical.result_location for the document as built; non-trivial = the node has a lexical entry; distinct by (document, node)"
 	magnitudes := []string{"0", "1", "9", "10", "99", "100", "2147483647", "2147483648", "9007199254740993", "18446744073709551616", "123456789012345678901234567890"}
 	pick := func() string {
@@ -211,6 +211,20 @@ func C14(e *core.Env) {
 	cases = append(cases, lexCase{g: g6})                                                                                                                               // nothing
 	cases = append(cases, lexCase{g: g6, root: &root, extraInfos: []string{"file:///api/other.raml"}, sourceMaps: [][]lexEntry{{{NodeID(5), rng("1", "1", "2", "2")}}}}) // two source-information nodes
 	cases = append(cases, lexCase{g: g6, root: &root, sourceMaps: [][]lexEntry{{{NodeID(0), "[(1,2)-(3)]"}, {NodeID(1), "no digits"}, {NodeID(2), "(1,2)-(3,4) trailing 5 6"}}}}) // fewer than four numbers, leading zeros, more than four
+	// file names that are not plain ASCII paths: a space, non-ASCII letters, dot segments, a relative reference, a query
+	sp := "file:///api/my api/root file.raml"
+	cases = append(cases, lexCase{g: g6, root: &sp,
+		sourceMaps: [][]lexEntry{{{NodeID(0), rng("1", "1", "1", "9")}, {NodeID(1), rng("2", "1", "2", "9")}, {NodeID(2), rng("3", "1", "3", "9")}, {NodeID(3), rng("4", "1", "4", "9")}, {NodeID(4), rng("5", "1", "5", "9")}}},
+		additional: []locNode{{"file:///api/my api/lib one.raml", []string{NodeID(1)}}, {"file:///api/lib/../shared/ünï-códe.raml", []string{NodeID(2)}},
+			{"lib/relative.raml", []string{NodeID(3)}}, {"file:///api/lib.raml?version=2#frag", []string{NodeID(4)}}}})
+	// two units with the SAME root location and the same number of included files, validated one after the other, in which
+	// the nodes belong to different files (an editor re-validating after a declaration was moved to a library)
+	moved := func(els [][]string) lexCase {
+		return lexCase{g: g6, root: &root,
+			sourceMaps: [][]lexEntry{{{NodeID(0), rng("1", "0", "1", "5")}, {NodeID(1), rng("2", "0", "2", "5")}, {NodeID(2), rng("3", "0", "3", "5")}, {NodeID(3), rng("4", "0", "4", "5")}}},
+			additional: []locNode{{"file:///api/lib/types.raml", els[0]}, {"file:///api/lib/traits.raml", els[1]}}}
+	}
+	cases = append(cases, moved([][]string{{NodeID(1)}, {NodeID(2)}}), moved([][]string{{NodeID(2), NodeID(3)}, {NodeID(0)}}), moved([][]string{{NodeID(1)}, {NodeID(2)}}))
 	for i := 0; i < e.Pick(25, 300); i++ {
 		n := 3 + e.Rand.Intn(6)
 		c := lexCase{g: mkGraph(n)}
